@@ -148,6 +148,8 @@ def apply_fault(recs, fault):
         lost = {atoms[fault[1]], atoms[fault[2]]}
     elif kind == 'F11':         # two whole residues lost (records a..b-1 and c..d-1)
         lost = set(atoms[fault[1]:fault[2]]) | set(atoms[fault[3]:fault[4]])
+    elif kind in ('F12', 'F13'):  # tail / head of one residue lost (records a..b-1)
+        lost = set(atoms[fault[1]:fault[2]])
     elif kind == 'F8':          # periodic loss: every p-th block of b records (phase q)
         _, b, per, q = fault
         lost = set(a for n, a in enumerate(atoms) if (n // b) % per == q)
@@ -194,6 +196,11 @@ def enumerate_faults(natoms, tier, rng, bounds=None):
         wins = [('F7', bounds[i], bounds[j]) for i in range(len(bounds))
                 for j in range(i + 1, len(bounds)) if bounds[j] - bounds[i] < natoms]
         res = [(bounds[i], bounds[i + 1]) for i in range(len(bounds) - 1)]
+        if tier.get('f12', True):
+            for a, b in res:
+                for k in range(a + 1, b):
+                    out.append(('F12', k, b))      # keep the first k-a atoms of the residue
+                    out.append(('F13', a, k))      # lose the first k-a atoms of the residue
         pairs = [('F11', a[0], a[1], b[0], b[1]) for i, a in enumerate(res) for b in res[i + 1:]]
         if tier.get('f11') == 'all':
             out += pairs
